@@ -83,7 +83,7 @@ double gcirc(double ra1, double dec1,
 {
 
     double sindec1, cosdec1, sindec2, cosdec2, 
-           radiff, cosradiff, dis, cosdis; 
+           radiff, cosradiff, sinradiff, dis, cosdis, sindis1, sindis2; 
 
     if (ra1 == ra2 && dec1 == dec2) {
         return 0.0;
@@ -97,13 +97,17 @@ double gcirc(double ra1, double dec1,
 
     radiff = (ra1-ra2)*D2R;
     cosradiff = cos(radiff);
+    sinradiff = sin(radiff);
 
     cosdis = sindec1*sindec2 + cosdec1*cosdec2*cosradiff;
 
-    if (cosdis < -1.0) cosdis=-1.0;
-    if (cosdis >  1.0) cosdis= 1.0;
+    // The arc cosine of cosdis loses all precision for small separations
+    // (and for nearly antipodal points).  Use the sine of the separation as
+    // well, from the cross product of the two unit vectors, and atan2
+    sindis1 = cosdec2*sinradiff;
+    sindis2 = cosdec1*sindec2 - sindec1*cosdec2*cosradiff;
 
-    dis = acos(cosdis);
+    dis = atan2(sqrt(sindis1*sindis1 + sindis2*sindis2), cosdis);
     if (degrees) {
         dis *= R2D;
     }
